@@ -35,6 +35,10 @@ MUTATIONS = [
      "inc := c.Spline.Length() / float64(c.SplineResolution-1)", "inc := c.Spline.Length() / float64(c.SplineResolution)"),
     ("polygon: UVs one short (loop over vertCount-1)", E + "circle.go",
      "\t\t\tfor sideIndex := 0; sideIndex < vertCount; sideIndex++ {\n\t\t\t\tpercentUsed", "\t\t\tfor sideIndex := 0; sideIndex < vertCount-1; sideIndex++ {\n\t\t\t\tpercentUsed"),
+    ("polygon: winding flip test inverted (every tube consistently inside out)", E + "circle.go",
+     "if dir.Dot(vertices[bottomLeft].Sub(pathPoint.Point)) < 0 {", "if dir.Dot(vertices[bottomLeft].Sub(pathPoint.Point)) > 0 {"),
+    ("polygon: default winding reversed and flip removed", E + "circle.go",
+     "\t\t\tif dir.Dot(vertices[bottomLeft].Sub(pathPoint.Point)) < 0 {", "\t\t\tif dir.Dot(vertices[bottomLeft].Sub(pathPoint.Point)) < 2 || true {"),
     ("tangent: middle rings use the leaving direction only", E + "extrusion_point.go",
      "directions[i] = sum.Normalized()", "directions[i] = out"),
     ("shape: seam quad uses slot 0 twice", E + "shape.go",
